@@ -86,7 +86,17 @@ def mutants(argv):
         prev = [x for x in json.load(open(path))["results"] if x["mutant"] not in {r["mutant"] for r in res}]
     with open(path, "w") as f:
         json.dump({"tier": tier, "results": sorted(prev + res, key=lambda x: x["mutant"])}, f, indent=1)
-    surv = [r["mutant"] for r in res if r["outcome"] != "killed"]
+    eq = {}
+    eqp = os.path.join(d, "EQUIVALENT.json")
+    if os.path.exists(eqp):
+        eq = json.load(open(eqp))
+    for r in res:
+        if r["outcome"] == "SURVIVED" and r["mutant"] in eq:
+            r["outcome"] = "survived-equivalent"
+            r["why_equivalent"] = eq[r["mutant"]]
+    with open(path, "w") as f:
+        json.dump({"tier": tier, "results": sorted(prev + res, key=lambda x: x["mutant"])}, f, indent=1)
+    surv = [r["mutant"] for r in res if r["outcome"] not in ("killed", "survived-equivalent")]
     print(f"{len(res) - len(surv)}/{len(res)} killed; not killed: {surv}")
     return 0
 
